@@ -177,8 +177,10 @@ func (server *Server) ServeCodec(codec ServerCodec) {
 			})
 		}
 	}
-	// run the requests still queued for decoding before waiting for their handlers
-	pipeline.Close()
+	// let the requests still queued for decoding reach their handlers, in order, before waiting for them
+	drained := make(chan struct{})
+	pipeline.Schedule(func() { close(drained) })
+	<-drained
 	wg.Wait()
 	server.mutex.Lock()
 	server.deleteCodec(codec)
@@ -531,8 +533,10 @@ func (server *Server) listen(sock socket.Socket, address string, New NewServerCo
 			}
 			if err == io.EOF || err == io.ErrUnexpectedEOF {
 				if atomic.CompareAndSwapInt32(&svrctx.closed, 0, 1) {
-					// run the requests still queued for decoding before waiting for their handlers
-					svrctx.pipeline.Close()
+					// let the requests still queued for decoding reach their handlers, in order, before waiting for them
+					drained := make(chan struct{})
+					svrctx.pipeline.Schedule(func() { close(drained) })
+					<-drained
 					svrctx.wg.Wait()
 					server.mutex.Lock()
 					delete(codecs, svrctx.codec)
